@@ -230,7 +230,13 @@ func TestVerifC18SaveSchedules(t *testing.T) {
 		ex := &vrt.Explorer{Bound: bound, MaxExec: 300000, OnExec: func(x *vrt.Exec, choices []int) bool {
 			r.Eval()
 			rp := map[string]interface{}{"scenario": si, "choices": choices}
-			if e := x.Err(); e != "" {
+			if e := x.Err(); strings.Contains(e, "replay divergence") {
+				// a schedule prefix the explorer could not reproduce: nondeterminism it does not own,
+				// which says nothing about the property (counted; the run is not exhaustive)
+				r.Count("schedules_not_reproducible(replay divergence)", 1)
+				r.NotExhaustive("a schedule prefix could not be reproduced: " + e)
+				return true
+			} else if e != "" {
 				r.Violate("save-sched/"+sc.name+"/incomplete", "execution did not complete: "+e, rp)
 				return true
 			}
